@@ -670,6 +670,28 @@ func Run(c Case) (res Result, sig string, err error) {
 			sock.Close()
 			closed = true
 			feats["close"] = true
+		case "writefault":
+			// The socket cannot encode the next update it is handed (WriteJSON returns a JSON
+			// encoding error for it and writes nothing), then the data changes once more. The
+			// client has then missed an update: the only way to keep "the client holds the
+			// result" is to end the connection (what thunder does); it may not carry on as if
+			// the update had been delivered. Last action of a history.
+			sock.FailNextUpdate(&json.UnsupportedValueError{Str: "NaN"})
+			st.Write(a.Typ, a.Eid)
+			feats["write-fault-armed"] = true
+			for i := 0; i < 40 && !sock.Closed() && sock.Failed() == 0; i++ {
+				time.Sleep(time.Millisecond)
+			}
+			if sock.Failed() > 0 {
+				feats["write-fault"] = true
+				// give the server a moment to end the connection
+				for i := 0; i < 500 && !sock.Closed(); i++ {
+					time.Sleep(time.Millisecond)
+				}
+			}
+			if sock.Closed() {
+				closed = true
+			}
 		}
 		if s, e := consume(); e != nil {
 			return res, s, e
@@ -732,6 +754,11 @@ func Run(c Case) (res Result, sig string, err error) {
 				if got := jv.Canon(client.State[id]); got != want {
 					last = fmt.Errorf("subscription %q: client state after applying every update\n  %s\ndiffers from the query result on the final data\n  %s\nquery:\n%s", id, got, want, c.Texts[ls.q])
 				}
+			}
+			if feats["write-fault-armed"] && sock.Closed() {
+				// the refused update came late: the server has ended the connection
+				last, closed = nil, true
+				break
 			}
 			if last == nil || time.Now().After(deadline) {
 				break
@@ -953,6 +980,10 @@ func Gen(t *rapid.T, lifecycle bool) Case {
 			}
 		}
 		c.Actions = append(c.Actions, a)
+	}
+	if !lifecycle && rapid.IntRange(0, 3).Draw(t, "writefault") == 0 {
+		typ, id := ent()
+		c.Actions = append(c.Actions, Action{Kind: "writefault", Typ: typ, Eid: id})
 	}
 	for i := 0; i < rapid.IntRange(0, 4).Draw(t, "ntriggers"); i++ {
 		typ, id := ent()
